@@ -106,6 +106,9 @@ def run_item(run_one, params, sidx, prefix, expect, budgets, st, deadline=None, 
             if 'deadline' not in st.caps:
                 st.caps.append('deadline')
             return
+        stop = _CTX.get('stop')
+        if stop is not None and stop.is_set():
+            return
         if st.n_viol >= 40:
             if 'stopped after 40 violations in one subtree' not in st.caps:
                 st.caps.append('stopped after 40 violations in one subtree')
@@ -187,6 +190,9 @@ def _work(item):
 def _work_many(items):
     st = Stats()
     for it in items:
+        stop = _CTX.get('stop')
+        if stop is not None and stop.is_set():
+            break
         st.merge(_work(it))
     return st
 
@@ -230,13 +236,14 @@ def explore(scenarios, run_one, budgets=None, split=0, deadline_s=None, known_id
         chunk = max(1, min(256, len(items) // (workers * 8)))
     chunks = [items[i:i + chunk] for i in range(0, len(items), chunk)]
     ctx = multiprocessing.get_context('fork')
+    _CTX['stop'] = ctx.Event()          # created before the fork: workers drop the remaining work once enough violations are in
     with ctx.Pool(min(workers, len(chunks))) as pool:
         for st in pool.imap_unordered(_work_many, chunks):
             total.merge(st)
-            if total.n_viol >= 400:
+            if total.n_viol >= 400 and not _CTX['stop'].is_set():
                 total.caps.append('exploration stopped early after %d violations' % total.n_viol)
-                pool.terminate()
-                break
+                _CTX['stop'].set()
+    _CTX['stop'] = None
     return total
 
 
